@@ -3,11 +3,15 @@
 (* detailed functional modules.                                                                                       *)
 (*                                                                                                                    *)
 (*   input bytes --FzfReader/FzfRecords--> records --FzfChunkList--> items (chunks, snapshots, --tail, header lines)  *)
+(*        FzfItems: the item builders of core.Run (plain / --ansi / --with-nth): what is searched, shown and printed   *)
 (*        walker: FzfWalker (when fzf produces its own input)          --ansi: FzfAnsi        fields: FzfFields       *)
 (*   query text --FzfQuery--> terms/groups --FzfAlgo, FzfAlgoV2, FzfAlgoSlab--> match / score / positions             *)
 (*        --FzfRank--> sort keys --FzfMerger--> lazily merged result list                                              *)
-(*   FzfPipeline: reader | coordinator | matcher | terminal; its Filter(q, n) abstracts FzfQuery + FzfRank over the    *)
-(*        first n items; Trace_Pipeline / Gen_Matcher bind it to the running program                                   *)
+(*   FzfPipeline: reader | coordinator | matcher | terminal with explicit chunk lists (--tail windows, trimmed copies), *)
+(*        reload generations, exclusions, merger / chunk caches; its FilterD(q, snapshot, deny) abstracts FzfQuery +     *)
+(*        FzfRank over the items of a snapshot; Trace_Pipeline / Gen_Matcher bind it to the running program; named      *)
+(*        deviations (ServeOlderSlot F5, StaleChunkCache F17, LostExclusion F21, StalePrevCount F26, no bump on trim)    *)
+(*        are kept as constants with counterexample configurations                                                       *)
 (*   FzfEditor: query line, cursor, selection, tracking (what the terminal does with a result list)                    *)
 (*   FzfScreen: rendition of (FzfEditor state, list) on the screen      FzfPreview: previewer protocol                 *)
 (*   FzfOutput: stdout + exit status (uses FzfEditor.Exits)             FzfHistory: --history file                     *)
